@@ -119,6 +119,22 @@ def check_shape(case):
                         continue
                     raise Violation(f'get_cell{tuple(args)} outside shape {dims} did not raise IndexError',
                                     expected='IndexError', observed=[list(row['pos'])])
+    if only is None:
+        # the table is the documented place to change cell values: a lookup afterwards shows the new value (and a row
+        # handed out earlier, which the caller scribbles on, does not disturb it)
+        narg = {'discrete': 3, 'line': 1, 'grid': 2}[kind]
+        for cid, (x, y, z) in sorted(ids.items()):
+            old_row = world.get_cell(*[x, y, z][:narg])
+            try:
+                old_row['v'] = -7
+            except Exception:      # noqa - a read-only row is fine too
+                pass
+            world.cells.loc[cid, 'v'] = 5000 + cid
+            row = world.get_cell(*[x, y, z][:narg])
+            queries += 2
+            if row['v'] != 5000 + cid or tuple(row['pos']) != (x, y, z):
+                raise Violation(f'get_cell{(x, y, z)[:narg]} on shape {dims} after the cell\'s value was changed in the '
+                                f'cells table', expected=5000 + cid, observed=int(row['v']))
     if only is None and sorted(ids) != list(range(ncells)):
         raise Violation('ids of in-range cells are not exactly 0..cells-1', expected=ncells, observed=len(ids))
     return queries, (kind, tuple(dims), len(ids))
@@ -170,7 +186,8 @@ def chunk_fn(ctx, chunk):
 
 def run(ctx):
     cases = [{'leg': 'shape', 'kind': k, 'dims': d, 'wrap': w} for k, d in shapes(ctx.tier) for w in (False, True)]
-    cases += [{'leg': 'big', 'kind': 'line', 'dims': [40000]}, {'leg': 'big', 'kind': 'discrete', 'dims': [0, 33000, 0]}]
+    cases += [{'leg': 'big', 'kind': 'line', 'dims': [40000]}, {'leg': 'big', 'kind': 'discrete', 'dims': [0, 33000, 0]},
+              {'leg': 'big', 'kind': 'discrete', 'dims': [48, 40, 36]}]
     if ctx.tier == 'thorough':
         cases += [{'leg': 'big', 'kind': 'discrete', 'dims': [0, 0, 70000]}, {'leg': 'big', 'kind': 'grid', 'dims': [300, 300]},
                   {'leg': 'big', 'kind': 'discrete', 'dims': [2, 33000, 0]}]
